@@ -418,6 +418,8 @@ def o_C07(tr: Trace, c: Cfg, h: str = "S") -> Fails:
             want_dir = "R" if k != "ack" else ("R" if q["of"] == "5" else "S")
             if q["dir"] != want_dir:
                 f.add(f"C07:direction:{k}", {"pdu": p[:160]}, x.idx)
+            if "wire" in q:
+                f.add(f"C07:not-parsable:{k}:{q['wire']}", {"pdu": p[:200]}, x.idx)
             if k in ("fd", "eof", "ack") and int(q["len"]) > maxpkt:
                 f.add(f"C07:{k}-exceeds-max-packet-len", {"pdu": p[:160], "max_packet_len": maxpkt}, x.idx)
             if k == "fd" and q["data"] != "-" and len(q["data"]) // 2 > seg:
